@@ -284,7 +284,38 @@ def build() -> Check:
         ck.ob("R5.batch-classified-with-callers-policy", f"concurrency/executor.py:ConcurrentExecutor.{mname}", cfg == "self.completion_config",
               f"BatchResult built with completion policy `{cfg}` (first run and replay must both use self.completion_config)", where=f"line {ln}")
     _handler_input_from_whole_history(ck, prog)
+    _suspension_latch(ck, prog)
     return ck
+
+
+def _suspension_latch(ck, prog):
+    """R7 (h3_C02 #1): a suspension is an exception (SuspendExecution, a BaseException) that unwinds through user code - through `finally` blocks, `__exit__`
+    methods and generator clean-up. A durable operation issued there is an operation like any other: it draws the context's next identifier and runs. In the
+    invocation that suspended, `release` in `try: wait; work  finally: release` draws the id that `work` will draw in the next invocation - `work` is answered
+    with release's record and never runs, `release` runs twice with two ids. Identical control flow on replay needs the context to refuse operations once a
+    suspension has passed through it. Necessary: some operation-entry code of DurableContext looks at a mark that a passing SuspendExecution sets."""
+    ctx = prog.cls("context", "DurableContext")
+    draw = ctx.methods.get("_create_step_id")
+    if draw is None:
+        raise AnalysisError("DurableContext._create_step_id not found")
+    marks = set()
+    for m in list(ctx.methods.values()) + list(prog.cls("operation.base", "OperationExecutor").methods.values()):
+        for h in [x for x in ast.walk(m.node) if isinstance(x, ast.ExceptHandler) and x.type is not None and "Suspend" in ast.unparse(x.type)]:
+            for st in ast.walk(ast.Module(body=h.body, type_ignores=[])):
+                if isinstance(st, (ast.Assign, ast.AnnAssign)):
+                    for t in (st.targets if isinstance(st, ast.Assign) else [st.target]):
+                        if isinstance(t, ast.Attribute):
+                            marks.add(t.attr)
+                if isinstance(st, ast.Call) and isinstance(st.func, ast.Attribute) and st.func.attr.startswith(("mark_", "note_", "record_")):
+                    marks.add(st.func.attr)
+    ops = [m for m in ctx.methods.values() if any(isinstance(c, ast.Call) and isinstance(c.func, ast.Attribute) and c.func.attr == "_create_step_id" for c in ast.walk(m.node))]
+    ck.floor("context_operations_drawing_an_id", len(ops), 8)
+    checked = bool(marks) and all(any(isinstance(a, ast.Attribute) and a.attr in marks for a in ast.walk(m.node)) or
+                                  any(isinstance(a, ast.Attribute) and a.attr in marks for a in ast.walk(draw.node)) for m in ops)
+    ck.ob("R7.no-operation-while-a-suspension-unwinds", "context.py:DurableContext", checked,
+          f"none of the {len(ops)} operation methods (nor _create_step_id) looks at a mark set when a SuspendExecution passes through: a durable operation in a user "
+          "`finally` / `__exit__` around any suspending call runs during the unwinding, draws the identifier of the NEXT operation and records under it - the "
+          "following invocation answers that next operation with the clean-up's record (its function never runs) and runs the clean-up again under a new id")
 
 
 def _handler_input_from_whole_history(ck, prog):
